@@ -24,7 +24,8 @@ Fixpoint accepted (sch : schema) (a : ast) : bool :=
       accepted sch l && accepted sch r && passes sch l a false && passes sch r a true
   end.
 
-(* flat_ok without the three [no_limit] conjuncts; every slice_head keeps at least one row
+(* flat_ok without the [no_limit] conjuncts of filter / arrange / summarize (a window mutate keeps its own:
+   the catalogue rule for it reads function types, which this link does not cover); every slice_head keeps at least one row
    (slice_head(0) is finding F16: the catalogue reads limit = 0 as "no limit") *)
 Fixpoint shape_ok (a : ast) : bool :=
   match a with
@@ -37,14 +38,19 @@ Fixpoint shape_ok (a : ast) : bool :=
                     | Some cc => forallb (fun u => mem_u u (q_select (c_q cc))) us
                     | None => false end
   | Mutate c defs =>
-      shape_ok c && forallb (fun d => elem (snd d)) defs
+      shape_ok c
       && match compile c with
-         | Some cc => fresh cc defs && forallb (fun d => scoped (c_scope cc) (snd d)) defs
+         | Some cc =>
+             fresh cc defs && forallb (fun d => scoped (c_scope cc) (snd d)) defs
+             && (forallb (fun d => elem (snd d)) defs
+                 || (negb (q_summ (c_q cc)) && no_limit (c_q cc) && is_nil (q_order (c_q cc))
+                     && forallb (fun d => win_ok (c_defs cc) (snd d)) defs))
          | None => false end
   | Filter c ps =>
       shape_ok c && forallb elem ps
       && match compile c with
          | Some cc => is_nil (q_order (c_q cc)) && forallb (scoped (c_scope cc)) ps
+                      && (q_summ (c_q cc) || ds_elem_b (c_defs cc))
          | None => false end
   | Arrange c os =>
       shape_ok c && forallb (fun o => elem (fst o)) os && negb (is_nil os)
@@ -56,7 +62,7 @@ Fixpoint shape_ok (a : ast) : bool :=
       && match compile c with
          | Some cc =>
              let q := c_q cc in
-             is_nil (q_order q) && negb (q_summ q)
+             is_nil (q_order q) && negb (q_summ q) && ds_elem_b (c_defs cc)
              && fresh cc defs && forallb (fun d => scoped (c_scope cc) (snd d)) defs
              && forallb (fun d => forallb (fun x => mem_u x (q_part q)) (gcols (snd d))) defs
              && forallb (fun u => mem_u u (q_select q)) (q_part q)
